@@ -287,7 +287,7 @@ static void body_case(const uint8_t *body, size_t n, int extras) {
         int nfr = side == 0 ? 2 : 3;
         for (int fr = 0; fr < nfr; fr++) {
             int comps = fr == 1 ? ncomp : 1;
-            for (int comp = 0; comp < comps; comp++) for (int ext = 0; ext < (fr == 1 ? (extras ? 3 : ((int) n <= body_extmax ? 2 : 1)) : 1); ext++) for (int tr = 0; tr < (fr == 1 && extras ? 2 : 1); tr++) {
+            for (int comp = 0; comp < comps; comp++) for (int ext = 0; ext < (fr == 1 ? (extras ? (side == 1 ? 4 : 3) : ((int) n <= body_extmax ? 2 : 1)) : 1); ext++) for (int tr = 0; tr < (fr == 1 && extras ? 2 : 1); tr++) {
                 long id = body_counter++;
                 if (id % hx_shard_n != hx_shard_i || hx_deadline_hit()) continue;
                 hb_reset(&q); hb_reset(&r);
